@@ -4,6 +4,7 @@ import (
 	"bytes"
 	"fmt"
 	"math/rand"
+	"net"
 	"os"
 	"sort"
 	"strconv"
@@ -177,7 +178,7 @@ func c11BackendCases(rnd *rand.Rand, thorough bool) []hostileCase {
 			"bad-type-byte": "!oops\r\n", "negative-bulk": "$-7\r\n", "negative-array": "*-9\r\n", "huge-bulk": "$99999999999\r\n", "huge-array": "*99999999\r\n",
 			"no-crlf": "+OK\n", "int-garbage": ":12x\r\n", "empty-line": "\r\n", "nested-bomb": string(rep("*1\r\n", 200000)), "null-bulk": "$-1\r\n", "null-array": "*-1\r\n",
 			"empty-lines-bomb": string(rep("\r\n", 4000000)),
-			"integer": ":7\r\n", "array-of-int": "*2\r\n:1\r\n:2\r\n", "empty-array": "*0\r\n", "error": "-ERR whatever\r\n", "empty-error": "-\r\n",
+			"integer":          ":7\r\n", "array-of-int": "*2\r\n:1\r\n:2\r\n", "empty-array": "*0\r\n", "error": "-ERR whatever\r\n", "empty-error": "-\r\n",
 			// replies that look like the beginning of a compressed value (magic, algorithm byte) and stop there
 			"cps-header-3-bytes": "$3\r\n(P$\r\n", "cps-header-4-bytes": "$4\r\n(P$\x00\r\n", "cps-header-5-bytes": "$5\r\n(P$\x00\r\r\n", "cps-header-only": "$6\r\n(P$\x00\r\n\r\n",
 			"cps-header-4-bytes-status": "+(P$\x00\r\n", "cps-header-bad-algorithm": "$8\r\n(P$\x07\r\nab\r\n", "cps-header-garbage-stream": "$12\r\n(P$\x00\r\n\xff\xfe\xfd\xfc\xfb\xfa\r\n",
@@ -192,7 +193,8 @@ func c11BackendCases(rnd *rand.Rand, thorough bool) []hostileCase {
 			"MOVED 1 127.0.0.1:1 extra words", "ASK 1 :", "MOVED  1  127.0.0.1:1", "MOVED\t1\t127.0.0.1:1", "MOVED 1 " + strings.Repeat("9", 5000), "ASK 1 \x00\xff\xfe", "CLUSTERDOWN", "CLUSTERDOWN ", "clusterdown Hash slot not served",
 			"MOVED 1 127.0.0.1:99999", "ASK 1 [::1]:1", "MOVED 18446744073709551616 127.0.0.1:1",
 			"A\u017fK 1 127.0.0.1:1", "A\u017f\u212a 1 127.0.0.1:1", "a\u017fk 1 127.0.0.1:1",
-			"MOVED 1 {SELF}", "ASK 1 {SELF}"} { // {SELF} = the address of the answering node: the redirection never ends
+			"MOVED 1 {SELF}", "ASK 1 {SELF}", // {SELF} = the address of the answering node: the redirection never ends
+			"MOVED 1 {SELF+0}", "ASK 1 {SELF+0}"} { // {SELF+0} = the same address spelled differently in every answer (one more leading zero in the port)
 			if rc != "plain" && len(e) > 40 {
 				continue
 			}
@@ -376,11 +378,13 @@ type c11Env struct {
 	badKey string // a key owned by the hostile node
 	askKey string // a key of the good node whose slot is migrating to the hostile node
 
-	hmu      sync.Mutex
-	hostile  *hostileCase
-	served   int64
-	batchN   int
-	baseline int64
+	hmu       sync.Mutex
+	spellings int64 // hostile answers with a new spelling of the node address served in this case
+	peakConns int64 // most connections seen open at the hostile node while it served a hostile answer
+	hostile   *hostileCase
+	served    int64
+	batchN    int
+	baseline  int64
 }
 
 func (e *c11Env) start() error {
@@ -423,7 +427,19 @@ func (e *c11Env) start() error {
 		}
 		atomic.AddInt64(&e.served, 1)
 		e.r.Count("hostile_reply_served:"+class, 1)
-		return fakecluster.Reply{Raw: bytes.Replace(h.Data, []byte("{SELF}"), []byte(e.bad.Addr), -1)}, true
+		raw := bytes.Replace(h.Data, []byte("{SELF}"), []byte(e.bad.Addr), -1)
+		if bytes.Contains(raw, []byte("{SELF+0}")) {
+			k := int(atomic.AddInt64(&e.spellings, 1))
+			if k > 400 {
+				return fakecluster.Reply{}, false // (the node gives up being hostile: the damage is counted by then)
+			}
+			host, port, _ := net.SplitHostPort(e.bad.Addr)
+			raw = bytes.Replace(raw, []byte("{SELF+0}"), []byte(host+":"+strings.Repeat("0", k)+port), -1)
+		}
+		if n := int64(e.bad.NumConns()); n > atomic.LoadInt64(&e.peakConns) {
+			atomic.StoreInt64(&e.peakConns, n)
+		}
+		return fakecluster.Reply{Raw: raw}, true
 	}
 	svc, err := startRedisSvc(s, cl, cl.Addrs(), RedisOpts{ConnTimeout: 300 * time.Millisecond})
 	if err != nil {
@@ -578,6 +594,18 @@ func c11(r *ev.Run) {
 			r.Violation("C11:memory:"+c.Class, fmt.Sprintf("peak RSS grew by %d MiB for %d input bytes (bound %d MiB)", grow>>10, len(c.Data), bound>>10), witness)
 			if !restart() {
 				return
+			}
+		}
+		if c.Side == "backend" {
+			// one hostile node must not make the proxy open connections without bound (each is a descriptor taken from every
+			// other service of the process)
+			atomic.StoreInt64(&e.spellings, 0)
+			if peak := atomic.SwapInt64(&e.peakConns, 0); peak > 48 {
+				witness["connections_open_at_the_hostile_node"] = peak
+				r.Violation("C11:connection-fan-out:"+c.Class, fmt.Sprintf("one request answered by a hostile node made the proxy hold %d connections to that node at once", peak), witness)
+				if !restart() {
+					return
+				}
 			}
 		}
 		if c.Side == "backend" && c.ReqClass == "plain" && strings.HasPrefix(c.Class, "backend-redirect:") && outcome == "silence" {
